@@ -100,9 +100,10 @@ def shadow_census(repo: Repo, rep, P: str):
         fns = list(c.methods.items()) + [(f"{k}", v) for k, v in c.getters.items()] + [(f"{k}.setter", v) for k, v in c.setters.items()]
         for fname, fn in fns:
             fq = f"{c.file.rel}:{c.qualname}.{fname}"
-            if any(isinstance(x, ast.Call) and isinstance(x.func, ast.Name) and x.func.id in ("setattr", "getattr") for x in ast.walk(fn)):
+            if fname == "__init__" or any(isinstance(x, ast.Call) and isinstance(x.func, ast.Name) and x.func.id in ("setattr", "getattr") for x in ast.walk(fn)):
                 from .. import inline
-                fn = inline.unroll(fn, repo, c)         # table-driven attribute loops read as the assignments they perform
+                # table-driven attribute loops (also in private helpers of the constructor) read as the assignments they perform
+                fn = inline.normalize(repo, c, fn)
             params = {a.arg for a in fn.args.args if a.arg != "self"} | {a.arg for a in fn.args.kwonlyargs}
             loader = is_loader(fname.split(".")[0])
             writer = is_writer(fname.split(".")[0]) or (fname in ("bytes", "raw_data", "cmid_data", "encoded_values") and fname in c.getters and fn is c.getters[fname])
